@@ -72,7 +72,7 @@ pub fn mutants(p: &Program) -> Vec<Mutant> {
             v.push(("duplicate-response-name".to_string(), None, Some(s.clone())));
         }
         // omitted required argument / incompatible values: targeted rewrites of the atom text
-        let rewrites: [(&str, &str, &str); 12] = [
+        let rewrites: [(&str, &str, &str); 21] = [
             ("user(id: $id)", "user", "missing-required-argument"),
             ("n1: node(id: $id)", "n1: node", "missing-required-argument"),
             ("node(id: $id)", "node", "missing-required-argument"),
@@ -85,6 +85,17 @@ pub fn mutants(p: &Program) -> Vec<Mutant> {
             ("{name: \"x\", n: 1}", "{name: \"x\", bogus: 1}", "undefined-input-field"),
             ("{nested: {a: $n}}", "{nested: {a: \"x\"}}", "incompatible-value:string-for-int-in-nested-input-object"),
             ("first: null", "first: RED", "incompatible-value:enum-for-int"),
+            // null for a non-null argument
+            ("user(id: $id)", "user(id: null)", "incompatible-value:null-for-non-null"),
+            // arguments of client fields
+            ("Friends(n: 1)", "Friends(n: \"one\")", "incompatible-value:string-for-int:client-field-argument"),
+            ("Friends(n: 1)", "Friends(n: true)", "incompatible-value:boolean-for-int:client-field-argument"),
+            ("Friends(n: 1)", "Friends(n: 1, bogus: 2)", "undefined-argument:client-field"),
+            ("Friends(n: 1)", "Friends(bogus: 2)", "undefined-argument:client-field"),
+            ("PetQ(x: 3)", "PetQ(x: RED)", "incompatible-value:enum-for-int:client-field-argument"),
+            ("PetQ(x: 3)", "PetQ(x: {a: 1})", "incompatible-value:object-for-int:client-field-argument"),
+            ("WithInput(x: 2)", "WithInput(x: \"2\")", "incompatible-value:string-for-int:client-field-argument"),
+            ("NodeArg(m: 3)", "NodeArg(m: \"3\")", "incompatible-value:string-for-int:client-field-argument"),
         ];
         for (from, to, kind) in rewrites {
             if text.contains(from) {
@@ -185,7 +196,7 @@ pub fn main(args: &Args) -> i32 {
         return sweep::replay(args);
     }
     let mut ev = Evidence::new(args, "exploration");
-    let families = vec![Family { menu: Menu::General, k: args.tier.pick(3, 4) }, Family { menu: Menu::Args, k: args.tier.pick(2, 3) }, Family { menu: Menu::Abstract, k: args.tier.pick(3, 4) }];
+    let families = vec![Family { menu: Menu::General, k: args.tier.pick(3, 4) }, Family { menu: Menu::Args, k: args.tier.pick(2, 3) }, Family { menu: Menu::Abstract, k: args.tier.pick(3, 4) }, Family { menu: Menu::ClientArgs, k: args.tier.pick(2, 3) }];
     let res = sweep::run(args, families);
     let mut verdict = Verdict::new("C16");
     for v in res.violations {
